@@ -63,6 +63,8 @@ def _step_exprs(s):
     op = s["op"]
     if op in ("select", "derive", "aggregate"):
         return [it["e"] for it in s["items"]]
+    if op == "bad":
+        return []
     if op == "filter":
         return [s["e"]]
     if op == "sort":
